@@ -10,9 +10,11 @@ import (
 	"io"
 	"os"
 	"os/exec"
+	"runtime"
 	"sort"
 	"strings"
 	"sync"
+	"sync/atomic"
 	"testing"
 	"testing/synctest"
 	"time"
@@ -23,6 +25,7 @@ import (
 	"go.6river.tech/mmmbbb/grpc/pubsubpb"
 
 	"verif/mc/report"
+	"verif/mc/vsql"
 	"verif/mc/world"
 )
 
@@ -200,9 +203,20 @@ const (
 func payloadOf(n int) []byte { return []byte(`"` + strings.Repeat("a", n-2) + `"`) }
 
 type c11Exec struct {
-	// spun: the streamer polled the database more than 4000 times without
-	// becoming quiescent (busy loop); the execution was cut
-	spun  bool
+	// spun: the streamer polled the database for a whole statement budget without
+	// becoming quiescent (busy loop: its strict-bytes fetch keeps finding only
+	// messages that do not fit).  The polling goroutine is then parked at its next
+	// transaction boundary, the state is judged like a quiescent one (after one
+	// further, undisturbed budget of polls), and the execution goes on.
+	spun     bool
+	pauseReq atomic.Bool
+	parked   atomic.Bool
+	parkG    atomic.Int64
+	resMu    sync.Mutex
+	hol      string // first "stall-behind-oversized" observation of the execution
+	holAt    int    // index of the event after which it was seen (-1: stream start)
+	evNo     int
+	resume   chan struct{}
 	w     *world.World
 	cfg   c11Cfg
 	base  *world.Snapshot
@@ -218,18 +232,45 @@ type c11Out struct {
 // found, the state key at the end and which events are enabled there.
 func (x *c11Exec) run(events []string) (viols []string, key string, enabled map[string]bool, sends int, err error) {
 	w := x.w
-	x.spun = false
+	x.spun, x.hol, x.holAt, x.evNo = false, "", 0, -1
 	if err = w.Restore(x.base); err != nil {
 		return
 	}
 	ctx, cancel := context.WithCancel(context.Background())
+	x.pauseReq.Store(false)
+	x.parked.Store(false)
+	x.resume = make(chan struct{})
+	harnessG := c11Goid()
 	arm := func() {
-		w.SetBudget(4000, func() {
-			x.spun = true
-			cancel()
+		w.SetBudget(c11SpinBudget, func() {
+			if g := c11Goid(); g != harnessG {
+				x.spun = true
+				x.parkG.Store(g)
+				x.pauseReq.Store(true)
+			}
 		})
 	}
+	unpark := func() {
+		x.pauseReq.Store(false)
+		x.resMu.Lock()
+		ch := x.resume
+		x.resume = make(chan struct{})
+		x.resMu.Unlock()
+		close(ch)
+	}
+	w.SetExtra(func(p vsql.Point) error {
+		if x.pauseReq.Load() && (p.Kind == vsql.Begin || p.Kind == vsql.Stmt && !p.InTx) && c11Goid() == x.parkG.Load() {
+			x.resMu.Lock()
+			ch := x.resume
+			x.resMu.Unlock()
+			x.parked.Store(true)
+			<-ch
+			x.parked.Store(false)
+		}
+		return nil
+	})
 	arm()
+	defer w.SetExtra(nil)
 	defer w.SetBudget(0, nil)
 	var out []c11Out // sent and not yet acked / nacked, in send order
 	var vmu sync.Mutex
@@ -268,17 +309,25 @@ func (x *c11Exec) run(events []string) (viols []string, key string, enabled map[
 	settleSends := func() {
 		for i := 0; i < 1000; i++ {
 			synctest.Wait()
-			if x.spun || !conn.release() {
+			if !conn.release() {
 				return
 			}
 		}
 	}
 	quiescent := func(after string) {
 		settleSends()
-		if x.spun {
-			return
+		if x.parked.Load() {
+			// busy loop: one more budget of polls during which nothing else happens
+			arm()
+			unpark()
+			settleSends()
 		}
-		arm()
+		defer func() {
+			arm()
+			if x.parked.Load() {
+				unpark()
+			}
+		}()
 		// liveness: capacity and an eligible message that fits ⇒ it must have been sent
 		vmu.Lock()
 		defer vmu.Unlock()
@@ -297,6 +346,7 @@ func (x *c11Exec) run(events []string) (viols []string, key string, enabled map[
 			return
 		}
 		defer rows.Close()
+		fits, unfit := 0, 0
 		for rows.Next() {
 			var id string
 			var n int
@@ -307,16 +357,37 @@ func (x *c11Exec) run(events []string) (viols []string, key string, enabled map[
 				continue
 			}
 			if len(out) == 0 || total+n <= x.cfg.MaxBytes {
-				viols = append(viols, fmt.Sprintf("stall: after %s the client holds %d messages / %d bytes (limits %d / %d) and a deliverable message of %d bytes fits, but nothing was sent", after, len(out), total, x.cfg.MaxMessages, x.cfg.MaxBytes, n))
-				return
+				if fits == 0 {
+					fits = n
+				}
+			} else {
+				unfit++
+			}
+		}
+		if fits > 0 {
+			// (one shape is told apart: at least as many deliverable messages that do NOT
+			// fit as there are free message slots - the fetch asks the database for "free
+			// slots" rows only and may get nothing but those)
+			rule := "stall"
+			if free := x.cfg.MaxMessages - len(out); unfit >= free {
+				rule = "stall-behind-oversized"
+			}
+			text := fmt.Sprintf("%s: after %s the client holds %d messages / %d bytes (limits %d / %d), a deliverable message of %d bytes fits (%d deliverable ones do not), but nothing was sent", rule, after, len(out), total, x.cfg.MaxMessages, x.cfg.MaxBytes, fits, unfit)
+			if rule == "stall" {
+				viols = append(viols, text)
+			} else if x.hol == "" {
+				// the listed finding: noted, and the execution goes on
+				x.hol = text
+				x.holAt = x.evNo
 			}
 		}
 	}
 	quiescent("stream start")
-	for _, ev := range events {
-		if len(viols) > 0 || err != nil || x.spun {
+	for evNo, ev := range events {
+		if len(viols) > 0 || err != nil {
 			break
 		}
+		x.evNo = evNo
 		vmu.Lock()
 		var oldest string
 		if len(out) > 0 {
@@ -386,7 +457,7 @@ func (x *c11Exec) run(events []string) (viols []string, key string, enabled map[
 		quiescent(ev)
 	}
 	// state key + enabled events at the end
-	if err == nil && !x.spun {
+	if err == nil {
 		snap, derr := w.Dump()
 		if derr != nil {
 			err = derr
@@ -406,6 +477,8 @@ func (x *c11Exec) run(events []string) (viols []string, key string, enabled map[
 		}
 	}
 	cancel()
+	w.SetBudget(0, nil)
+	unpark()
 	select {
 	case <-done:
 	case <-time.After(time.Hour):
@@ -416,6 +489,23 @@ func (x *c11Exec) run(events []string) (viols []string, key string, enabled map[
 	return
 }
 
+// c11SpinBudget: statements the streamer may issue after an event before its polling
+// goroutine is parked and the state judged.
+const c11SpinBudget = 600
+
+func c11Goid() int64 {
+	var buf [64]byte
+	n := runtime.Stack(buf[:], false)
+	var id int64
+	for _, c := range buf[len("goroutine "):n] {
+		if c < '0' || c > '9' {
+			break
+		}
+		id = id*10 + int64(c-'0')
+	}
+	return id
+}
+
 type c11Result struct {
 	Cfg         c11Cfg
 	Executions  int
@@ -424,6 +514,8 @@ type c11Result struct {
 	MaxDepth    int
 	Complete    bool
 	Spins       int
+	HeadOfLine  int
+	holShown    int
 	SpinExample []string
 	Viols       []struct {
 		Events []string
@@ -472,10 +564,21 @@ func c11Worker(t *testing.T) int {
 				if res.SpinExample == nil {
 					res.SpinExample = append([]string{}, prefix...)
 				}
-				return
 			}
 			if len(prefix) > res.MaxDepth {
 				res.MaxDepth = len(prefix)
+			}
+			if x.hol != "" && len(viols) == 0 {
+				res.HeadOfLine++
+				// reported where it first shows (the shortest sequences come first in the DFS
+				// only per branch: keep the shortest few)
+				if x.holAt == len(prefix)-1 && len(res.Viols) < 20 && res.holShown < 3 {
+					res.holShown++
+					res.Viols = append(res.Viols, struct {
+						Events []string
+						Text   string
+					}{append([]string{}, prefix...), x.hol})
+				}
 			}
 			if len(viols) > 0 {
 				// the same sequence must fail every time
@@ -538,6 +641,9 @@ func replayC11(t *testing.T, tier string, v report.Viol) int {
 			viols, _, _, _, err := x.run(v.Trace)
 			if err != nil {
 				t.Fatal(err)
+			}
+			if len(viols) == 0 && x.hol != "" && v.Rule == "stall-behind-oversized" {
+				viols = []string{x.hol}
 			}
 			if len(viols) > 0 {
 				bad++
@@ -610,7 +716,7 @@ func runC11(t *testing.T, tier string) int {
 	}
 	wg.Wait()
 	sink := &violSink{}
-	execs, states, sends, spins := 0, 0, 0, 0
+	execs, states, sends, spins, hol := 0, 0, 0, 0, 0
 	per := map[string]any{}
 	var samples []any
 	for i, r := range results {
@@ -621,8 +727,9 @@ func runC11(t *testing.T, tier string) int {
 		execs += r.Executions
 		states += r.States
 		sends += r.Sends
-		per[fmt.Sprintf("messages=%d,bytes=%d", r.Cfg.MaxMessages, r.Cfg.MaxBytes)] = map[string]any{"executions": r.Executions, "quiescent_states": r.States, "sends_checked": r.Sends, "max_depth": r.MaxDepth, "busy_loop_executions": r.Spins, "busy_loop_example": r.SpinExample}
+		per[fmt.Sprintf("messages=%d,bytes=%d", r.Cfg.MaxMessages, r.Cfg.MaxBytes)] = map[string]any{"executions": r.Executions, "quiescent_states": r.States, "sends_checked": r.Sends, "max_depth": r.MaxDepth, "busy_loop_executions": r.Spins, "busy_loop_example": r.SpinExample, "head_of_line_stall_executions": r.HeadOfLine}
 		spins += r.Spins
+		hol += r.HeadOfLine
 		for _, v := range r.Viols {
 			rule := strings.SplitN(v.Text, ":", 2)[0]
 			sink.add(report.Viol{Property: "C11", Check: fmt.Sprintf("C11/events messages=%d bytes=%d", r.Cfg.MaxMessages, r.Cfg.MaxBytes), Rule: rule, Text: v.Text, Trace: v.Events})
@@ -637,7 +744,8 @@ func runC11(t *testing.T, tier string) int {
 		"exhaustive":                    true,
 		"depth":                         depth,
 		"sends_checked":                 sends,
-		"busy_loop_executions_cut":      spins,
+		"busy_loop_executions":          spins,
+		"head_of_line_stall_executions": hol,
 		"configurations":                per,
 		"events":                        c11Events,
 		"explanation":                   "for each of 15 flow-control settings: DFS over all event sequences (publish small/big, stream ack, stream nack as modify-deadline 0, stream Nack, external Acknowledge) up to the depth, each replayed on a fresh real MessageStreamer.Go with an in-memory connection and run to quiescence (synctest.Wait) after every event; pruned on repeated quiescent states; the bound is checked at every Send, the no-stall condition at every quiescent point",
